@@ -24,7 +24,7 @@ pub const DEF: PropDef = PropDef {
     ],
     run,
     replay,
-    cap_s: (50, 850),
+    cap_s: (50, 1800),
     shards: 0,
 };
 
